@@ -213,7 +213,7 @@ func runC04(c *Ctx) {
 			ok = fromSha256OfParam(p, pa, call.Call.Args[3])
 		}
 		c.Check("C04-R3", "account-index-keyed-by-hash", pa.Pos(), ok, "the address->account index is not keyed by sha256(address id)")
-	checkHashedBucketKeys(c, "C04-R3")
+		checkHashedBucketKeys(c, "C04-R3")
 	}
 
 	// ---------- R4 ----------
